@@ -126,14 +126,21 @@ fn conditional_cfg(meta: &syn::Meta) -> Option<syn::Meta> {
     if !meta.path().is_ident("cfg_attr") {
         return None;
     }
-    let mut arguments = meta
-        .require_list()
-        .ok()?
-        .parse_args_with(syn::punctuated::Punctuated::<syn::Meta, syn::token::Comma>::parse_terminated)
-        .ok()?
-        .into_iter();
+    // The arguments, split at the commas: the predicate is any tokens (`unix`, `all(..)`, `true`),
+    // what follows are attributes.
+    let mut arguments: Vec<proc_macro2::TokenStream> = vec![Default::default()];
+    for token in meta.require_list().ok()?.tokens.clone() {
+        match &token {
+            proc_macro2::TokenTree::Punct(punct) if punct.as_char() == ',' => {
+                arguments.push(Default::default());
+            }
+            _ => arguments.last_mut()?.extend(std::iter::once(token)),
+        }
+    }
+    let mut arguments = arguments.into_iter();
     let predicate = arguments.next()?;
     let cfgs: Vec<_> = arguments
+        .filter_map(|tokens| syn::parse2::<syn::Meta>(tokens).ok())
         .filter_map(|meta| {
             if meta.path().is_ident("cfg") {
                 Some(meta)
